@@ -26,7 +26,7 @@ MANIFEST = {
             'm=2: receivers get the exact masked value and agree, non-receivers get None. Multi-party inputs where every party '
             'contributes its own private value from mixes {0, +-1, +-2, +-0.5, +-2^k, 3.5, -0.1, random}, and single input() calls '
             'for lists with 0 or +-2^k first, followed by *, /, +, < and output at every party, go through the same model/oracle '
-            'checks; a source-form obligation (ast) requires SecureFloat.__init__ to build the significand with integral=False.',
+            'checks (also PRSS configurations m=7,t=3 and m=6,t=2 with a reduced budget in the quick tier); a source-form obligation (ast) requires SecureFloat.__init__ to build the significand with integral=False.',
     'note': 'PARTIAL: no Coq theorem for addition/subtraction/comparisons (flt_add is modelled and tied by the correspondence '
             'run, but its invariant/add_bound/cmp_exact_outside_band are not proved) nor for division (runtime._rec Newton '
             'iteration not modelled; / is covered by the implementation oracle only). Harness: every run uses a fresh simulator/event '
@@ -695,10 +695,10 @@ def gen_mix_jobs(g, m, nmix, nlst):
 
     def ops_on(vals):
         pairs = [(i, j) for i in range(len(vals)) for j in range(len(vals)) if i != j]
-        cand = [(op, i, j) for (i, j) in pairs for op in ('mul', 'div', 'add', 'lt')
+        cand = [(op, i, j) for (i, j) in pairs for op in ('mul', 'div', 'add', 'sub', 'lt')
                 if op in g.ops_for(vals[i], vals[j], None)]
         rng.shuffle(cand)
-        return sorted(cand[:5], key=lambda o: (o[1], o[2], o[0]))
+        return sorted(cand[:6], key=lambda o: (o[1], o[2], o[0]))
 
     jobs = []
     for _ in range(nmix if m > 1 else 0):
@@ -781,6 +781,14 @@ def run(ctx):
             small = (s == 24)
             plan.append((m, t, np_, s, E, dict(npairs=ctx.n(6 if small else 9, 40), nops=3, nio=ctx.n(3, 10),
                                                nchain=ctx.n(2, 8), nrop=ctx.n(1, 4))))
+    # large PRSS configurations (the conversion masks are sums of comb(m,t) pseudorandom terms): reduced budget in quick
+    for (m, t, np_) in [(7, 3, False), (6, 2, False)]:
+        for (s, E) in [(24, 8), (11, 5)]:
+            if ctx.tier == 'thorough':
+                plan.append((m, t, np_, s, E, dict(npairs=9, nops=3, nio=3, nchain=2, nrop=1, nmix=5, nlst=2)))
+            else:
+                plan.append((m, t, np_, s, E, dict(npairs=1, nops=3, nio=0, nchain=0, nrop=0, nmix=2 if m == 7 else 1, nlst=0,
+                                                   lite=True)))
     if ctx.tier == 'thorough':
         for (m, t, np_) in [(4, 1, False), (5, 2, True), (2, 0, True)]:
             plan.append((m, t, np_, 11, 5, dict(npairs=20, nops=3, nio=6, nchain=4, nrop=2)))
@@ -789,11 +797,17 @@ def run(ctx):
         g = Gen(rng, s, E)
         if E > 9:       # keep |x| well inside the Python float range (output computes s * 2**e in floats)
             g.emin, g.emax = -300, 300
+        jp = dict(jp)
+        nmix, nlst, lite = jp.pop('nmix', ctx.n(5, 20)), jp.pop('nlst', ctx.n(3, 10) if m > 1 or s <= 24 else 1), jp.pop('lite', False)
         jobs = gen_jobs(g, **jp)
-        jobs += gen_mix_jobs(g, m, ctx.n(5, 20), ctx.n(3, 10) if m > 1 or s <= 24 else 1)
+        jobs += gen_mix_jobs(g, m, nmix, nlst)
+        if (s, E) == (24, 8) and (m == 1 or (m == 3 and not np_)):
+            # reviewer's case: cancellation zero keeps the exponent 100 - f = 77 (in range) and the following + aligns 1.0
+            # to it (class F-C05-1: exact-zero operand with the larger exponent); 1.8e16 instead of 1.0
+            jobs.append(('chain', 2.0**100, 2.0**100, 1.0, 'sub', 'add', 'l'))
         # F-C05 replay inputs in every configuration of the matching type
         for (fs, fE, x) in FC05:
-            if (fs, fE) == (s, E):
+            if (fs, fE) == (s, E) and not lite:
                 jobs.append(('bin', x, 0.0, ['add', 'sub', 'gt', 'eq'], 'zero'))
                 jobs.append(('bin', 0.0, x, ['add', 'lt'], 'zero'))
         if m == 1 and (s, E) == (24, 8):
@@ -816,7 +830,7 @@ def run(ctx):
                 yv = math.ldexp(1.0 + 2.0**-(s + 2), ky) * rng.choice([1, -1])
                 xv = rng.choice([math.ldexp(1.0, kx), -math.ldexp(1.0, kx), g.flt(e=kx)])
                 jobs.append(('bin', xv, yv, ['div'], 'recip-half'))
-        if (s, E) == (11, 5):      # F-C05-3 replay: cancellation zero with exponent -23 outside the 5-bit exponent type
+        if (s, E) == (11, 5) and not lite:      # F-C05-3 replay: cancellation zero with exponent -23 outside the 5-bit exponent type
             jobs.append(('chain', 1e-4, 1e-4, 30000.0, 'sub', 'add', 'l'))
         cfg = 'm=%d t=%d %s' % (m, t, 'no-prss' if np_ else 'prss')
         res = run_config(ctx, m, t, np_, s, E, jobs, ctx.seed + 31 * m + s)
